@@ -1514,7 +1514,8 @@ func (cpu *CPU) op_jmp() {
 		cpu.PC = cpu.Bus.nRead16_wrap(0x00, cpu.StepInfo.Addr)
 		cpu.RK = cpu.Bus.nRead(0x00, cpu.StepInfo.Addr+2)
 	default:
-		cpu.PC = cpu.cmdRead16()
+		// (abs,X): the pointer was already read with its second byte wrapping inside the program bank
+		cpu.PC = cpu.StepInfo.Addr
 	}
 	cpu.stepPC = 0
 }
@@ -1535,7 +1536,8 @@ func (cpu *CPU) op_jsr() {
 	case m_Absolute:
 		cpu.PC = cpu.StepInfo.Addr
 	default:
-		cpu.PC = cpu.cmdRead16()
+		// (abs,X): the pointer was already read with its second byte wrapping inside the program bank
+		cpu.PC = cpu.StepInfo.Addr
 	}
 	cpu.stepPC = 0
 }
